@@ -270,6 +270,31 @@ def draw_arg_pattern(draw, cfg, depth):
     return R.MV(draw(st.sampled_from(cfg.ids)))
 
 
+def _is_bot(t):
+    return t == ('M', 0, ('s', 0)) or (t[0] == 'n' and t[1] is _N().bot)
+
+
+def _neg_body(t):
+    """a if t is (a -> bot) or neg(a), else None"""
+    if t[0] == 'n' and t[1] is _N().neg: return t[2][0]
+    if t[0] == 'i' and _is_bot(t[2]): return t[1]
+    return None
+
+
+def resugar_root(t):
+    """An implication written with the propositional notations where its shape allows (several layers: a -> (b -> bot) -> bot
+    is and(a, b), whose expansion is an implication only after two unfoldings); None when no notation fits.  The result is
+    equal to t up to notation, so a rule that accepts t must accept it."""
+    if t[0] != 'i': return None
+    l, r = t[1], t[2]
+    if _is_bot(r):
+        if _is_bot(l): return Top()
+        if l[0] == 'i' and _neg_body(l[2]) is not None: return And(l[1], _neg_body(l[2]))
+        return Neg(l)
+    if _neg_body(l) is not None: return Or(_neg_body(l), r)
+    return None
+
+
 def draw_app(draw, cfg, depth=2, entries=None, only=None, arg_depth=2):
     """Draw an application of a random catalogue entry; premises are declared axioms or (depth permitting)
     nested applications whose conclusion matches the required shape."""
@@ -286,6 +311,8 @@ def draw_app(draw, cfg, depth=2, entries=None, only=None, arg_depth=2):
 
     def new_arg():
         counter[0] += 1
+        if alias == 'none' and draw(st.integers(0, 9)) == 0:
+            return draw(st.sampled_from([Bot(), Bot(), Top(), Neg(draw_arg_pattern(draw, cfg, 0))]))   # constants: shapes that fold into notation
         if pool:
             return pool[(counter[0] - 1) % len(pool)]
         if alias == 'random' and sigma and draw(st.booleans()):
@@ -311,10 +338,27 @@ def draw_app(draw, cfg, depth=2, entries=None, only=None, arg_depth=2):
         if nested is not None:
             premises.append(('app', nested))
         else:
+            sh = a.shape
+            if sh[0] == 'i' and sh[1][0] == 'm' and sh[2][0] == 'm' and sh[1][1] >= 100 and sh[2][1] >= 100 and sh[1][1] not in sigma and sh[2][1] not in sigma \
+                    and sh[1][1] != sh[2][1] and draw(st.integers(0, 7)) == 0:
+                # an implication premise p -> q that is a conjunction / top / equivalence when written with notation (an
+                # implication only after two or three unfoldings)
+                x, y = draw_arg_pattern(draw, cfg, 0), draw_arg_pattern(draw, cfg, 0)
+                form = draw(st.sampled_from(['and', 'top', 'equiv']))
+                if form == 'and': sigma[sh[1][1]], sigma[sh[2][1]] = I(x, Neg(y)), Bot()
+                elif form == 'top': sigma[sh[1][1]], sigma[sh[2][1]] = Bot(), Bot()
+                else: sigma[sh[1][1]], sigma[sh[2][1]] = I(I(x, y), Neg(I(y, x))), Bot()
+                prem0 = {'and': And(x, y), 'top': Top(), 'equiv': Equiv(x, y)}[form]
+                premises.append(('axiom', prem0))
+                continue
             for v in schema_vars(a.shape):
                 if v not in sigma:
                     sigma[v] = new_arg()
-            premises.append(('axiom', subst_sugared(a.shape, sigma)))
+            prem = subst_sugared(a.shape, sigma)
+            alt = resugar_root(prem)
+            if alt is not None and draw(st.booleans()):
+                prem = alt      # the same premise written with notation (an implication only after unfolding, possibly twice)
+            premises.append(('axiom', prem))
     for a in ent.args:
         if isinstance(a, PAT) and a.var[1] not in sigma:
             sigma[a.var[1]] = new_arg()
